@@ -186,6 +186,19 @@ func (x *Exec) callFuncValue(s *State, fv *Value, call *ast.CallExpr) []*Value {
 	// a function-typed parameter: arbitrary behaviour — it may panic, and it may change (only) the worlds
 	// reachable through the context values passed to it
 	x.Unmod["call of unknown function value at "+x.Pr.Pos(call.Pos())]++
+	if x.entrySnap != nil && x.selfFn != nil && x.selfFn.Contr != nil {
+		if id, ok := unparen(call.Fun).(*ast.Ident); ok && id.Name == x.selfFn.Contr.Invokes {
+			// `invokes f on entry`: every context handed to f carries exactly the entry state
+			goal := True
+			for _, a := range args {
+				if a != nil && a.K == KCtx {
+					goal = And(goal, worldEq(s.Worlds[a.W], x.entrySnap.Worlds[x.entryWorld]))
+				}
+			}
+			x.invokeSeq++
+			x.Obls = append(x.Obls, &Obligation{Name: fmt.Sprintf("%s/invokes#%s@%d", x.fnTag, id.Name, x.invokeSeq), Prop: x.propTag, Kind: "invokes", Hyp: s.PC, Goal: goal, Pos: x.Pr.Pos(call.Pos()), Src: "invokes " + id.Name + " on entry", Inputs: x.entryInputs})
+		}
+	}
 	for _, a := range args {
 		if a != nil && a.K == KCtx {
 			if w, ok := s.Worlds[a.W]; ok {
